@@ -62,6 +62,8 @@ def run(tier):
                 first_alt_end = text.index("\n  |", text.index("S0 :")) if "\n  |" in text else None
                 if first_alt_end:
                     text = text[:first_alt_end] + " << func() (interface{}, error) { s := `%s{{.}}`; _ = s /* c */; return X[0], nil }() >>" + text[first_alt_end:]
+            # how a file ends must not matter: no final newline, a final // comment without newline, CR LF, trailing blanks
+            text = text.rstrip("\n") + ck.rng.choice(["\n", "", " // the end", "\r\n", " /* end */", "\n\n  \t", " //"])
             for fl in (FLAGSETS if k < 4 or tier == "thorough" else ck.rng.sample(FLAGSETS, 3)):
                 items.append((b.add(None, flags=fl, text=text), fl, bool(syn), "hostile"))
             # byte-level mutants: termination only
